@@ -394,6 +394,14 @@ theorem witness_program_info_templates (s p : List UInt8) :
     (extractWitnessV1KeyBytes s = some p → witnessProgramInfo s = some (1, p)) :=
   Lemmas.witnessProgramInfo_templates s p
 
+/-- control blocks round-trip through their byte form: `ParseControlBlock (ToBytes c) = c` for an even leaf version
+(the parity shares bit 0 of that byte), a valid 32-byte internal key and at most 128 proof nodes of 32 bytes -/
+theorem controlBlock_bytes_roundtrip (validX : List UInt8 → Bool) (c : CtrlBlock)
+    (hv : c.leafVer &&& 1 = 0) (hx : c.internalX.length = 32) (hvx : validX c.internalX = true)
+    (hp : ∀ p ∈ c.path, p.length = 32) (hn : c.path.length ≤ 128) :
+    parseControlBlock validX c.bytes = .ok c :=
+  Lemmas.parseControlBlock_bytes validX c hv hx hvx hp hn
+
 /-- `NullDataScript d` is recognised as null data (by both recognisers, see `template_classes_disjoint`) for every
 payload up to the 80-byte limit — except the one-byte payload 0x81, which the builder encodes as OP_1NEGATE, an
 opcode the recogniser does not accept (see the witness below) -/
